@@ -198,6 +198,12 @@ impl Scenario for C17Encodings {
                     if a.2 != b.2 {
                         return Err(cx.fail("E1", "diagnostics-depend-on-encoding", format!("{label}: {:?} vs {:?}", a.2, b.2)));
                     }
+                    // cross-check that does not rely on the crate's own PartialEq (see C01 O2)
+                    if let (Some(x), Some(y)) = (&a.1, &b.1) {
+                        if let Some(d) = guarded(cx, "no-panic", "Debug rendering of the models", || crate::c01::independent_diff(y, x))? {
+                            return Err(cx.fail("E1", "equal-by-PartialEq-but-Debug-renderings-differ", format!("{label}: the crate's == calls the two models equal, their Debug renderings (IF_DATA excluded) differ: {d}")));
+                        }
+                    }
                     "Ok"
                 }
                 (Err(a), Err(b)) => {
